@@ -20,7 +20,7 @@ RULE = ("cadzow: full rectangular site grids 1-4 columns x 4-40 rows in shuffled
         "Non-trivial: grid with >= 2 columns / >= 2 spikes per bin somewhere / >= 2 labels with fold > 1; distinct = distinct (function, shape, "
         "parameters) signature")
 ASSUMPTIONS = ["spike times are sorted (as produced by spike sorters)", "floating point tolerances: identities 1e-10 relative, polynomial reproduction rtol 1e-6"]
-REQUIRED = {"venn_crowded_bins": 20, "smooth_call_histories": 100, "smooth_integer_constants": 20, "cadzow_np1_identity": 6, "cadzow_identity": 10, "cadzow_planewave": 10, "svd_identity": 10, "svd_offset_identity": 10, "smooth_constants": 30, "savgol_polynomials": 30, "savgol_nan": 10,
+REQUIRED = {"stack_second_steps": 20, "venn_crowded_bins": 20, "smooth_call_histories": 100, "smooth_integer_constants": 20, "cadzow_np1_identity": 6, "cadzow_identity": 10, "cadzow_planewave": 10, "svd_identity": 10, "svd_offset_identity": 10, "smooth_constants": 30, "savgol_polynomials": 30, "savgol_nan": 10,
             "venn_conservation": 20, "stack_checked": 10}
 CASE_TIMEOUT = 200.0
 
@@ -419,6 +419,18 @@ def run_case(case):
                 res.check(np.allclose(st2, exp, rtol=1e-12, atol=0, equal_nan=True), "stack:aggregate", f"{label}: aggregate with header differs")
                 res.check(np.array_equal(hs["fold"], [np.sum(word == lb) for lb in labs]) and np.allclose(hs["toto"], [hdr["toto"][word == lb].mean() for lb in labs]),
                           "stack:header", f"{label}: aggregated header / fold wrong")
+                # round 23: stacking in two steps - the stack just made is stacked again into coarser labels, with the header the first step returned (it
+                # carries the first step's fold): the fold reported by a call is the number of traces THAT call put into each label
+                coarse = (np.arange(labs.size) // int(rng.integers(1, 4))).astype(int)
+                with warnings.catch_warnings():
+                    warnings.simplefilter("ignore")
+                    st3, hs3 = V.stack(np.asarray(st2).copy(), coarse, fcn_agg=agg, header={k: np.array(v) for k, v in hs.items()})
+                cl = np.unique(coarse)
+                res.check(np.array_equal(np.asarray(hs3["fold"]), [np.sum(coarse == c_) for c_ in cl]), "stack:fold:second-step",
+                          f"{label}: second step into {cl.size} coarser labels: fold {np.asarray(hs3['fold'])[:6]} is not the number of traces aggregated {[int(np.sum(coarse == c_)) for c_ in cl][:6]}",
+                          counter="stack_second_steps")
+                exp3 = np.stack([agg(np.asarray(st2)[coarse == c_], axis=0) for c_ in cl])
+                res.check(np.allclose(st3, exp3, rtol=1e-12, atol=0, equal_nan=True), "stack:aggregate:second-step", f"{label}: second-step aggregate differs from the direct computation")
                 if nlab >= 2 and ntr > nlab:
                     sigs.add(("stack", ntr, nlab))
             except Exception as e:
